@@ -22,28 +22,28 @@ Theorem C17_current_subscribers_once : forall g ops,
   (forall t1 p c n a t2 t3, run g ops = t1 ++ VBegin p c n a :: t2 ++ VEnd p :: t3 ->
      forall i, In i (members (view_of t1) c n) ->
                find_live (view_of (t1 ++ VBegin p c n a :: t2)) (i_l i) <> None ->
-               exists fa, In (VInv p (i_l i) fa) t2) /\
-  (forall t1 p l a1 t2 a2 t3, run g ops <> t1 ++ VInv p l a1 :: t2 ++ VInv p l a2 :: t3).
+               exists fa gr, In (VInv p (i_l i) fa gr) t2) /\
+  (forall t1 p l a1 g1 t2 a2 g2 t3, run g ops <> t1 ++ VInv p l a1 g1 :: t2 ++ VInv p l a2 g2 :: t3).
 Proof. exact m_once. Qed.
 Print Assumptions C17_current_subscribers_once.
 
 (* every invocation made by a publication of args a passes bound args followed by a *)
-Theorem C17_args_bound_then_published : forall g ops t1 p c n a t2 l fa t3,
-  run g ops = t1 ++ VBegin p c n a :: t2 ++ VInv p l fa :: t3 ->
+Theorem C17_args_bound_then_published : forall g ops t1 p c n a t2 l fa gr t3,
+  run g ops = t1 ++ VBegin p c n a :: t2 ++ VInv p l fa gr :: t3 ->
   exists i, find_live (view_of (t1 ++ VBegin p c n a :: t2)) l = Some i /\ fa = i_bound i ++ a.
 Proof. exact m_args. Qed.
 Print Assumptions C17_args_bound_then_published.
 
 (* ... and is of a listener subscribed, at that very moment, to that centre and that name *)
-Theorem C17_no_other_names : forall g ops t1 p c n a t2 l fa t3,
-  run g ops = t1 ++ VBegin p c n a :: t2 ++ VInv p l fa :: t3 ->
+Theorem C17_no_other_names : forall g ops t1 p c n a t2 l fa gr t3,
+  run g ops = t1 ++ VBegin p c n a :: t2 ++ VInv p l fa gr :: t3 ->
   exists i, find_live (view_of (t1 ++ VBegin p c n a :: t2)) l = Some i /\ i_c i = c /\ i_n i = n.
 Proof. exact m_names. Qed.
 Print Assumptions C17_no_other_names.
 
 (* no invocation outside an open publication *)
-Theorem C17_invoked_only_by_open_publication : forall g ops pre p l fa post,
-  run g ops = pre ++ VInv p l fa :: post ->
+Theorem C17_invoked_only_by_open_publication : forall g ops pre p l fa gr post,
+  run g ops = pre ++ VInv p l fa gr :: post ->
   exists f i, aget p (frames (view_of pre)) = Some f /\ find_live (view_of pre) l = Some i /\
               i_c i = f_c f /\ i_n i = f_n f /\ fa = i_bound i ++ f_args f /\ ~ In l (f_seen f).
 Proof. exact m_inv_open. Qed.
@@ -51,18 +51,18 @@ Print Assumptions C17_invoked_only_by_open_publication.
 
 (* once unsubscribed (by id or by callback) - from anywhere, including from inside a listener
    of a publication that has not reached it yet - a listener is never invoked again *)
-Theorem C17_unsubscribed_never_again : forall g ops t1 c n l t2 p fa t3 gl b,
+Theorem C17_unsubscribed_never_again : forall g ops t1 c n l t2 p fa gr t3 gl b,
   In (VSub l c n gl b) t1 ->
-  run g ops <> t1 ++ VUnsub c n l :: t2 ++ VInv p l fa :: t3 /\
-  run g ops <> t1 ++ VUnsubCb c n l :: t2 ++ VInv p l fa :: t3.
+  run g ops <> t1 ++ VUnsub c n l :: t2 ++ VInv p l fa gr :: t3 /\
+  run g ops <> t1 ++ VUnsubCb c n l :: t2 ++ VInv p l fa gr :: t3.
 Proof. exact m_unsub. Qed.
 Print Assumptions C17_unsubscribed_never_again.
 
 (* after Clear() none of the centre's listeners is invoked again and the centre accepts no
    new subscription *)
 Theorem C17_cleared_never_again : forall g ops t1 c t2 t3,
-  (forall l n gl b p fa, In (VSub l c n gl b) t1 ->
-     run g ops <> t1 ++ VClear c :: t2 ++ VInv p l fa :: t3) /\
+  (forall l n gl b p fa gr, In (VSub l c n gl b) t1 ->
+     run g ops <> t1 ++ VClear c :: t2 ++ VInv p l fa gr :: t3) /\
   (forall l n gl b, run g ops <> t1 ++ VClear c :: t2 ++ VSub l c n gl b :: t3).
 Proof. exact m_clear. Qed.
 Print Assumptions C17_cleared_never_again.
@@ -125,11 +125,72 @@ Print Assumptions C17_monitor_is_spec.
 
 (* the order oracle reaches every iteration order: whichever listener of the remaining
    snapshot the guide names is the one visited next *)
-Theorem C17_any_order : forall p l todo fa g s,
-  In l todo -> guide s = VInv p l fa :: g ->
+Theorem C17_any_order : forall p l todo fa gr g s,
+  In l todo -> guide s = VInv p l fa gr :: g ->
   pick (hint p s) todo = Some (l, remove_first l todo).
 Proof. exact m_any_order. Qed.
 Print Assumptions C17_any_order.
+
+(* ---- run services: whose goroutine, and teardown *)
+
+(* Every listener invocation of a centre happens on the goroutine that owns the centre at that
+   moment, for every history - whoever published, whatever the service is doing, including
+   Stop() called from a foreign goroutine while events are still queued. *)
+Theorem C17_owner_context : forall g ops pre p l fa gr post,
+  run g ops = pre ++ VInv p l fa gr :: post ->
+  exists i, find_live (view_of pre) l = Some i /\ gr = owner (view_of pre) (i_c i).
+Proof. exact m_owner. Qed.
+Print Assumptions C17_owner_context.
+
+(* ... where the owner of a centre is the loop goroutine of its run service exactly from Start()
+   until that loop has ended, and the driver goroutine otherwise *)
+Theorem C17_owner_is_the_live_loop : forall t c,
+  let P := is_svc c = true /\ exists t1 t2, t = t1 ++ VStart c :: t2 /\ ~ In (VLoopEnd c) t2 in
+  (owner (view_of t) c = c /\ P) \/ (owner (view_of t) c = 0 /\ ~ P).
+Proof. exact m_owner_char. Qed.
+Print Assumptions C17_owner_is_the_live_loop.
+
+(* Stop() is final, whoever calls it: afterwards no listener of the centre is invoked (on any
+   goroutine), nothing is received from its queue (neither dispatched nor skipped), nothing can
+   be subscribed, the service is neither stopped nor started again *)
+Theorem C17_stop_is_final : forall g ops t1 c t2 t3,
+  (forall l n gl b p fa gr, In (VSub l c n gl b) t1 ->
+     run g ops <> t1 ++ VStop c :: t2 ++ VInv p l fa gr :: t3) /\
+  (forall e, run g ops = t1 ++ VStop c :: t2 ++ e :: t3 ->
+     match e with
+     | VDeq c' _ _ | VSkip c' _ | VStop c' | VStart c' | VSub _ c' _ _ _ => c' <> c
+     | _ => True
+     end).
+Proof. exact m_stop. Qed.
+Print Assumptions C17_stop_is_final.
+
+(* events queued for a run service are received by its loop only, and only before Stop(): what
+   is pending at Stop() is dropped (with C17_owner_context: delivered by the owner or not at all) *)
+Theorem C17_queue_received_by_live_loop_only : forall g ops pre c n a post,
+  run g ops = pre ++ VDeq c n a :: post -> is_svc c = true ->
+  loop_alive (view_of pre) c = true /\ ~ In (VStop c) pre.
+Proof. exact m_deq_by_loop. Qed.
+Print Assumptions C17_queue_received_by_live_loop_only.
+
+(* events the loop received without invoking anybody were the oldest pending ones and had no
+   listener at that centre *)
+Theorem C17_skipped_had_no_listener : forall g ops pre c k post,
+  run g ops = pre ++ VSkip c k :: post ->
+  0 < k <= qlen (view_of pre) c /\ loop_alive (view_of pre) c = true /\ ~ In (VStop c) pre /\
+  (forall x, In x (firstn (Z.to_nat k) (queue_of (view_of pre) c)) ->
+             members (view_of pre) c (fst x) = []) /\
+  queue_of (view_of (pre ++ [VSkip c k])) c = skipn (Z.to_nat k) (queue_of (view_of pre) c).
+Proof. exact m_skip. Qed.
+Print Assumptions C17_skipped_had_no_listener.
+
+(* a loop ends only after Stop(); what is still queued is never received; the centre is the
+   driver's again *)
+Theorem C17_loop_ends_after_stop : forall g ops pre c post,
+  run g ops = pre ++ VLoopEnd c :: post ->
+  In (VStop c) pre /\ loop_alive (view_of pre) c = true /\
+  queue_of (view_of (pre ++ [VLoopEnd c])) c = [] /\ owner (view_of (pre ++ [VLoopEnd c])) c = 0.
+Proof. exact m_loop_end. Qed.
+Print Assumptions C17_loop_ends_after_stop.
 
 (* ---- non-vacuity *)
 (* two listeners that unsubscribe each other: whoever map order visits first wins *)
@@ -139,14 +200,14 @@ Definition ex1 : list op :=
 Example C17_example_order_a :
   run [] ex1 =
   [VOp; VOp; VOp; VSub 1 0 7 false [10]; VOp; VSub 2 0 7 false [20]; VOp; VBegin 1 0 7 [5];
-   VInv 1 1 [10; 5]; VUnsub 0 7 2; VRet 1 true; VEnd 1; VOp; VBegin 2 0 7 [6]; VInv 2 1 [10; 6];
+   VInv 1 1 [10; 5] 0; VUnsub 0 7 2; VRet 1 true; VEnd 1; VOp; VBegin 2 0 7 [6]; VInv 2 1 [10; 6] 0;
    VUnsub 0 7 2; VRet 1 true; VEnd 2].
 Proof. vm_compute. reflexivity. Qed.
 Example C17_example_order_b :
   run [VOp; VOp; VOp; VSub 1 0 7 false [10]; VOp; VSub 2 0 7 false [20]; VOp; VBegin 1 0 7 [5];
-       VInv 1 2 [20; 5]] ex1 =
+       VInv 1 2 [20; 5] 0] ex1 =
   [VOp; VOp; VOp; VSub 1 0 7 false [10]; VOp; VSub 2 0 7 false [20]; VOp; VBegin 1 0 7 [5];
-   VInv 1 2 [20; 5]; VUnsub 0 7 1; VRet 2 true; VEnd 1; VOp; VBegin 2 0 7 [6]; VInv 2 2 [20; 6];
+   VInv 1 2 [20; 5] 0; VUnsub 0 7 1; VRet 2 true; VEnd 1; VOp; VBegin 2 0 7 [6]; VInv 2 2 [20; 6] 0;
    VUnsub 0 7 1; VRet 2 true; VEnd 2].
 Proof. vm_compute. reflexivity. Qed.
 
@@ -157,7 +218,7 @@ Example C17_example_clear_inside :
           OAct (ASub 10 7 1 0 [3] 0); OAct (APub 10 7 [5]); OAct (APub 10 7 [6]);
           OAct (ASub 10 7 1 0 [] 0)] =
   [VOp; VOp; VSub 1 10 7 false [1]; VOp; VSub 2 10 7 false [2]; VOp; VSub 3 10 7 false [3]; VOp;
-   VBegin 1 10 7 [5]; VInv 1 1 [1; 5]; VClear 10; VRet 1 true; VEnd 1; VOp; VBegin 2 10 7 [6];
+   VBegin 1 10 7 [5]; VInv 1 1 [1; 5] 0; VClear 10; VRet 1 true; VEnd 1; VOp; VBegin 2 10 7 [6];
    VEnd 2; VOp; VSubFail].
 Proof. vm_compute. reflexivity. Qed.
 
@@ -167,8 +228,8 @@ Proof. vm_compute. reflexivity. Qed.
 Example C17_example_subscribe_inside :
   run [] [ODef 1 [ASub 0 7 0 0 [9] 0; AUnsubSelf]; OAct (ASub 0 7 0 0 [1] 1);
           OAct (APub 0 7 [5]); OAct (APub 0 7 [6]); OAct (APub 0 8 [7])] =
-  [VOp; VOp; VSub 1 0 7 false [1]; VOp; VBegin 1 0 7 [5]; VInv 1 1 [1; 5]; VSub 2 0 7 false [9];
-   VUnsub 0 7 1; VRet 1 true; VEnd 1; VOp; VBegin 2 0 7 [6]; VInv 2 2 [9; 6]; VRet 2 true; VEnd 2;
+  [VOp; VOp; VSub 1 0 7 false [1]; VOp; VBegin 1 0 7 [5]; VInv 1 1 [1; 5] 0; VSub 2 0 7 false [9];
+   VUnsub 0 7 1; VRet 1 true; VEnd 1; VOp; VBegin 2 0 7 [6]; VInv 2 2 [9; 6] 0; VRet 2 true; VEnd 2;
    VOp; VBegin 3 0 8 [7]; VEnd 3].
 Proof. vm_compute. reflexivity. Qed.
 
@@ -178,9 +239,9 @@ Example C17_example_global_and_full_queue :
   run [] [OAct (ASub 1 7 1 0 [] 0); OAct (ASub 0 7 0 0 [3] 0); OAct (AGPub 7 [1] 998);
           OAct (AGPub 7 [2] 1); OAct (AGPub 7 [3] 1); ODrain 1 1; OAct (APub 1 7 [4]);
           OAct (APub 1 7 [5])] =
-  [VOp; VSub 1 1 7 true []; VOp; VSub 2 0 7 false [3]; VOp; VGPub 7 [1] 998 [0; 998; 0; 0]; VOp;
-   VGPub 7 [2] 1 [0; 999; 0; 0]; VOp; VGPub 7 [3] 1 [0; 999; 0; 0]; VOp; VDeq 1 7 [1]; VBegin 1 1 7 [1];
-   VInv 1 1 [1]; VRet 1 true; VEnd 1; VOp; VEnq 1 7 [4]; VOp; VEnq 1 7 [5]; VDeadlock].
+  [VOp; VSub 1 1 7 true []; VOp; VSub 2 0 7 false [3]; VOp; VGPub 7 [1] 998 [0; 998; 0; 0; 0; 0]; VOp;
+   VGPub 7 [2] 1 [0; 999; 0; 0; 0; 0]; VOp; VGPub 7 [3] 1 [0; 999; 0; 0; 0; 0]; VOp; VDeq 1 7 [1]; VBegin 1 1 7 [1];
+   VInv 1 1 [1] 0; VRet 1 true; VEnd 1; VOp; VEnq 1 7 [4]; VOp; VEnq 1 7 [5]; VDeadlock].
 Proof. vm_compute. reflexivity. Qed.
 
 (* centre 1 full (999, filled through its private name 8), centres 2 and 3 healthy, all three
@@ -190,8 +251,8 @@ Example C17_example_one_full_others_served :
           OAct (ASub 1 8 1 0 [] 0); OAct (AGPub 8 [0] 999); OAct (AGPub 7 [5] 1);
           ODiscard 2 10; ODrain 3 1; ODiscard 1 1200] =
   [VOp; VSub 1 1 7 true [1]; VOp; VSub 2 2 7 true [2]; VOp; VSub 3 3 7 true [3]; VOp;
-   VSub 4 1 8 true []; VOp; VGPub 8 [0] 999 [0; 999; 0; 0]; VOp; VGPub 7 [5] 1 [0; 999; 1; 1];
-   VOp; VDrop 2 [(1, (7, [5]))]; VOp; VDeq 3 7 [5]; VBegin 1 3 7 [5]; VInv 1 3 [3; 5]; VRet 3 true; VEnd 1;
+   VSub 4 1 8 true []; VOp; VGPub 8 [0] 999 [0; 999; 0; 0; 0; 0]; VOp; VGPub 7 [5] 1 [0; 999; 1; 1; 0; 0];
+   VOp; VDrop 2 [(1, (7, [5]))]; VOp; VDeq 3 7 [5]; VBegin 1 3 7 [5]; VInv 1 3 [3; 5] 0; VRet 3 true; VEnd 1;
    VOp; VDrop 1 [(999, (8, [0]))]].
 Proof. vm_compute. reflexivity. Qed.
 
@@ -203,21 +264,79 @@ Example C17_example_light_dedup :
           OAct (ASub 10 7 2 1 [4] 0); OAct (ASub 10 7 1 1 [5] 0); OAct (AUnsubCb 10 7 0 1);
           OAct (AUnsubCb 10 7 0 2); OAct (APub 10 7 [])] =
   [VOp; VSub 1 10 7 false [1]; VOp; VSubFail; VOp; VSub 2 10 7 false [3]; VOp; VSubFail; VOp;
-   VSub 3 10 7 false [5]; VOp; VAmbig; VOp; VUnsubCb 10 7 2; VOp; VBegin 1 10 7 []; VInv 1 1 [1];
-   VRet 1 true; VInv 1 3 [5]; VRet 3 true; VEnd 1].
+   VSub 3 10 7 false [5]; VOp; VAmbig; VOp; VUnsubCb 10 7 2; VOp; VBegin 1 10 7 []; VInv 1 1 [1] 0;
+   VRet 1 true; VInv 1 3 [5] 0; VRet 3 true; VEnd 1].
 Proof. vm_compute. reflexivity. Qed.
 
 (* the monitor rejects the three defects as they showed on the unrepaired code:
    F7a Subscribe inside a listener never returns; F7b the second listener is invoked after the
    first one cleared the centre; F7c the arguments of the outer invocation change under it *)
 Example C17_monitor_rejects_F7a :
-  holds_b [VOp; VSub 1 0 7 false []; VOp; VBegin 1 0 7 []; VInv 1 1 []; VDeadlock] = false.
+  holds_b [VOp; VSub 1 0 7 false []; VOp; VBegin 1 0 7 []; VInv 1 1 [] 0; VDeadlock] = false.
 Proof. vm_compute. reflexivity. Qed.
 Example C17_monitor_rejects_F7b :
-  holds_b [VOp; VSub 1 0 7 false []; VOp; VSub 2 0 7 false []; VOp; VBegin 1 0 7 []; VInv 1 1 [];
-           VClear 0; VRet 1 true; VInv 1 2 []; VRet 2 true; VEnd 1] = false.
+  holds_b [VOp; VSub 1 0 7 false []; VOp; VSub 2 0 7 false []; VOp; VBegin 1 0 7 []; VInv 1 1 [] 0;
+           VClear 0; VRet 1 true; VInv 1 2 [] 0; VRet 2 true; VEnd 1] = false.
 Proof. vm_compute. reflexivity. Qed.
 Example C17_monitor_rejects_F7c :
-  holds_b [VOp; VSub 1 0 7 false [4]; VOp; VBegin 1 0 7 [1]; VInv 1 1 [4; 1]; VBegin 2 0 7 [2];
-           VInv 2 1 [4; 2]; VRet 1 true; VEnd 2; VRet 1 false; VEnd 1] = false.
+  holds_b [VOp; VSub 1 0 7 false [4]; VOp; VBegin 1 0 7 [1]; VInv 1 1 [4; 1] 0; VBegin 2 0 7 [2];
+           VInv 2 1 [4; 2] 0; VRet 1 true; VEnd 2; VRet 1 false; VEnd 1] = false.
+Proof. vm_compute. reflexivity. Qed.
+
+(* run service 4: one delivery on the loop goroutine; three global publications stay queued
+   (the loop is busy); Stop() from the driver; a fourth publication reaches nobody (the centre
+   is no longer registered); the loop ends without having invoked anybody; later publications,
+   subscriptions and sends find a dead centre *)
+Definition ex_stop_foreign : list op :=
+  [OAct (ASub 4 7 1 0 [1] 0); OStart 4; OAct (AGPub 7 [0] 1); ORun 4;
+   OAct (AGPub 7 [1] 1); OAct (AGPub 7 [2] 1); OAct (AGPub 7 [3] 1); OAct (AStop 4);
+   OAct (AGPub 7 [4] 1); ORun 4; OAct (AGPub 7 [99] 1); OAct (ASub 4 7 1 0 [2] 0); OAct (APub 4 7 [5])].
+Example C17_example_stop_foreign_pending :
+  run [] ex_stop_foreign =
+  [VOp; VSub 1 4 7 true [1]; VOp; VStart 4; VOp; VGPub 7 [0] 1 [0; 0; 0; 0; 1; 0]; VOp; VDeq 4 7 [0];
+   VBegin 1 4 7 [0]; VInv 1 1 [1; 0] 4; VRet 1 true; VEnd 1; VOp; VGPub 7 [1] 1 [0; 0; 0; 0; 1; 0]; VOp;
+   VGPub 7 [2] 1 [0; 0; 0; 0; 2; 0]; VOp; VGPub 7 [3] 1 [0; 0; 0; 0; 3; 0]; VOp; VStop 4; VOp;
+   VGPub 7 [4] 1 [0; 0; 0; 0; 3; 0]; VOp; VLoopEnd 4; VOp; VGPub 7 [99] 1 [0; 0; 0; 0; 0; 0]; VOp; VSubFail;
+   VOp; VEnq 4 7 [5]].
+Proof. vm_compute. reflexivity. Qed.
+
+(* the loop subscribes two listeners, the driver may not (VNop); events nobody listens to are
+   skipped... here they are behind the first delivery, whose second listener stops the service
+   from inside: its later send is queued and dropped, the loop ends; a second Start is refused *)
+Example C17_example_stop_inside_listener :
+  run [] [ODef 1 [AStop 4; APub 4 7 [8]]; OStart 4; OOwn 4 (ASub 4 7 1 0 [1] 0); OOwn 4 (ASub 4 7 0 0 [2] 1);
+          OAct (ASub 4 7 0 0 [3] 0); OAct (AGPub 8 [0] 2); OAct (AGPub 7 [1] 2); OOwn 4 (APub 4 9 [6]);
+          OOwn 4 (APub 4 7 [7]); OOwn 4 (APub 0 7 [1]); ORun 4; ORun 4; OStart 4] =
+  [VOp; VOp; VStart 4; VOp; VSub 1 4 7 true [1]; VOp; VSub 2 4 7 false [2]; VOp; VNop; VOp;
+   VGPub 8 [0] 2 [0; 0; 0; 0; 0; 0]; VOp; VGPub 7 [1] 2 [0; 0; 0; 0; 2; 0]; VOp; VEnq 4 9 [6]; VOp; VEnq 4 7 [7];
+   VOp; VNop; VOp; VDeq 4 7 [1]; VBegin 1 4 7 [1]; VInv 1 1 [1; 1] 4; VRet 1 true; VInv 1 2 [2; 1] 4; VStop 4;
+   VEnq 4 7 [8]; VRet 2 true; VEnd 1; VLoopEnd 4; VOp; VNop; VOp; VNop].
+Proof. vm_compute. reflexivity. Qed.
+
+(* a backlog queued before Start() (two events nobody listens to, then one that is listened to) *)
+Example C17_example_backlog_and_skip :
+  run [] [OAct (ASub 4 7 1 0 [1] 0); OAct (APub 4 8 [0]); OAct (APub 4 8 [1]); OAct (AGPub 7 [2] 1);
+          OAct (APub 4 9 [3]); OStart 4] =
+  [VOp; VSub 1 4 7 true [1]; VOp; VEnq 4 8 [0]; VOp; VEnq 4 8 [1]; VOp; VGPub 7 [2] 1 [0; 0; 0; 0; 3; 0];
+   VOp; VEnq 4 9 [3]; VOp; VStart 4; VSkip 4 2; VDeq 4 7 [2]; VBegin 1 4 7 [2]; VInv 1 1 [1; 2] 4; VRet 1 true;
+   VEnd 1; VSkip 4 1].
+Proof. vm_compute. reflexivity. Qed.
+
+(* the monitor rejects the seeded teardown defect C17-6 as it shows on the changed code: Stop()
+   called by the driver "flushes" the pending events itself - the listener runs on goroutine 0
+   while the centre is owned by the loop goroutine 4 *)
+Example C17_monitor_rejects_flush_on_stop_caller :
+  holds_b [VOp; VSub 1 4 7 true [1]; VOp; VStart 4; VOp; VGPub 7 [1] 1 [0; 0; 0; 0; 1; 0]; VOp;
+           VDeq 4 7 [1]; VBegin 1 4 7 [1]; VInv 1 1 [1; 1] 0; VRet 1 true; VEnd 1; VStop 4] = false.
+Proof. vm_compute. reflexivity. Qed.
+(* ... while the same delivery by the loop itself, before Stop(), is what the property asks for *)
+Example C17_monitor_accepts_delivery_by_owner :
+  holds_b [VOp; VSub 1 4 7 true [1]; VOp; VStart 4; VOp; VGPub 7 [1] 1 [0; 0; 0; 0; 1; 0]; VOp;
+           VDeq 4 7 [1]; VBegin 1 4 7 [1]; VInv 1 1 [1; 1] 4; VRet 1 true; VEnd 1; VOp; VStop 4; VOp; VLoopEnd 4] = true.
+Proof. vm_compute. reflexivity. Qed.
+(* a listener invoked after Stop(), a queue received from after Stop(), a delivery by the driver
+   after the loop has ended: all rejected *)
+Example C17_monitor_rejects_delivery_after_stop :
+  holds_b [VOp; VSub 1 4 7 true [1]; VOp; VStart 4; VOp; VGPub 7 [1] 1 [0; 0; 0; 0; 1; 0]; VOp; VStop 4; VOp;
+           VDeq 4 7 [1]; VBegin 1 4 7 [1]; VEnd 1; VLoopEnd 4] = false.
 Proof. vm_compute. reflexivity. Qed.
